@@ -37,6 +37,7 @@ const baseT = int64(1_700_000_000) * 1_000_000_000
 // more series (tag w=3, written only by the nemesis) lives 30 days earlier.
 const coldT = baseT - 30*24*3600*1_000_000_000
 const coldWriter = 3
+const extraOpeners = 4
 const killAfterIdle = "kill-after-idle-shard-flush"
 const afterIdleSuffix = "+after-idle-shard-flush"
 
@@ -143,6 +144,64 @@ func (rn *runner) runSchedule(sc schedule, worker int) {
 	var valSeq int64
 	newVal := func(client int) int64 { return int64(client)<<32 | atomic.AddInt64(&valSeq, 1) }
 	ws := make([]*writerState, nW)
+	// the nemesis' series in the second shard of the partition
+	coldNext := 0
+	writeCold := func(tries int) bool {
+		k := key{seriesName(coldWriter, 0), coldT + int64(coldNext)*1_000_000_000}
+		coldNext++
+		for try := 0; try < tries; try++ {
+			v := newVal(9)
+			rec.attempt(coldWriter, k)
+			call := tick()
+			res := cl.Front.Write(db, line(coldWriter, 0, k.T, v), nil)
+			ret := tick()
+			o := op{Client: 9, Write: true, Key: k, Val: v, Call: call, Phase: phase, Step: step}
+			if res.Acked() {
+				o.Ret = ret
+				rec.add(o)
+				return true
+			}
+			rec.add(o) // stays open; the next try writes the next timestamp
+			k = key{seriesName(coldWriter, 0), coldT + int64(coldNext)*1_000_000_000}
+			coldNext++
+			time.Sleep(500 * time.Millisecond)
+		}
+		return false
+	}
+	// openers: the first write into each of the two shard groups (they do not exist yet). They are
+	// ordinary checked points; a replica whose cached meta data lags drops them (known finding),
+	// which is why the series used by the workload are written only after a pause
+	writeOpener := func(se int, t int64) bool {
+		k := key{seriesName(coldWriter, se), t}
+		for try := 0; try < 120; try++ {
+			v := newVal(9)
+			rec.attempt(coldWriter, k)
+			call := tick()
+			res := cl.Front.Write(db, line(coldWriter, se, k.T, v), nil)
+			ret := tick()
+			o := op{Client: 9, Write: true, Key: k, Val: v, Call: call, Step: stepOpener}
+			if res.Acked() {
+				o.Ret = ret
+				rec.add(o)
+				return true
+			}
+			rec.add(o)
+			time.Sleep(500 * time.Millisecond)
+		}
+		return false
+	}
+	if !writeOpener(1, baseT) || !writeOpener(2, coldT-1_000_000_000) {
+		c.Inconclusive("warm-up-never-acknowledged", 1)
+		return
+	}
+	// four more shard groups (30 days apart), opened back to back and never written again
+	for k := 1; k <= extraOpeners; k++ {
+		if !writeOpener(2+k, coldT-int64(k)*30*24*3600*1_000_000_000) {
+			c.Inconclusive("warm-up-never-acknowledged", 1)
+			return
+		}
+	}
+	time.Sleep(3 * time.Second)
 	// warm-up: one point per series; retried until acknowledged (the replica group needs a leader)
 	for w := 0; w < nW; w++ {
 		ws[w] = &writerState{next: make([]int, nSeries), dirty: map[key]bool{}, acked: map[key]bool{}}
@@ -172,30 +231,6 @@ func (rn *runner) runSchedule(sc schedule, worker int) {
 			}
 		}
 	}
-	// the nemesis' series in the second shard of the partition
-	coldNext := 0
-	writeCold := func(tries int) bool {
-		k := key{seriesName(coldWriter, 0), coldT + int64(coldNext)*1_000_000_000}
-		coldNext++
-		for try := 0; try < tries; try++ {
-			v := newVal(9)
-			rec.attempt(coldWriter, k)
-			call := tick()
-			res := cl.Front.Write(db, line(coldWriter, 0, k.T, v), nil)
-			ret := tick()
-			o := op{Client: 9, Write: true, Key: k, Val: v, Call: call, Phase: phase, Step: step}
-			if res.Acked() {
-				o.Ret = ret
-				rec.add(o)
-				return true
-			}
-			rec.add(o) // stays open; the next try writes the next timestamp
-			k = key{seriesName(coldWriter, 0), coldT + int64(coldNext)*1_000_000_000}
-			coldNext++
-			time.Sleep(500 * time.Millisecond)
-		}
-		return false
-	}
 	if !writeCold(40) {
 		c.Inconclusive("warm-up-never-acknowledged", 1)
 		return
@@ -208,14 +243,14 @@ func (rn *runner) runSchedule(sc schedule, worker int) {
 		res, err := cl.Front.Query(db, "SELECT fi FROM m GROUP BY *", nil)
 		if err == nil && len(res.Results) == 1 {
 			lastSeen = len(res.Results[0].Series)
-			if lastSeen == nW*nSeries+1 {
+			if lastSeen == nW*nSeries+3+extraOpeners {
 				break
 			}
 		}
 		if time.Now().After(deadline) {
 			if lastSeen >= 0 {
 				c.Eval(1)
-				c.Violation("acknowledged-points-not-readable-before-any-fault", fmt.Sprintf("schedule %d: %d series were written and acknowledged (HTTP 204) once each, no fault was injected; 120 s later a successful read still returns only %d series", sc.Index, nW*nSeries+1, lastSeen),
+				c.Violation("acknowledged-points-not-readable-before-any-fault", fmt.Sprintf("schedule %d: %d series were written and acknowledged (HTTP 204) once each, no fault was injected; 120 s later a successful read still returns only %d series", sc.Index, nW*nSeries+3+extraOpeners, lastSeen),
 					map[string]any{"schedule": sc, "ops": rec.ops})
 				return
 			}
